@@ -15,6 +15,7 @@ truthiness            truthiness of d.get(k): `d.get(k) or default`, `if d.get(k
                       reviewed instances on the tree are sanctioned by name.
 shared object in a    a loop stores one and the same freshly built mutable object
 loop                  into a container on every iteration (zero on the reviewed tree).
+split unpacking       a, b = text.split(...): arity depends on the text (zero on the tree).
 last-iteration leak   a name bound only inside a loop body is read after the loop (zero on
                       the reviewed tree).
 length difference     d['..._length'] = a - b without a dominating `if a < b: raise`
@@ -95,7 +96,7 @@ def _mutable_expr(e):
     return False
 
 
-def shared_object_in_loop(m):
+def shared_object_in_loop(m, repo=None):
     """(function, node, reason) where a loop stores -- d[k] = v, l.append(v), ... -- one and the same mutable object
     into a container on every iteration: v is a local not rebound inside the loop, every definition of which builds a
     fresh mutable object (literal, comprehension, copy/deepcopy, dict()/list(), a Capitalised constructor).  The
@@ -110,11 +111,45 @@ def shared_object_in_loop(m):
                     v = s.value.id
                 elif isinstance(s, ast.Call) and isinstance(s.func, ast.Attribute) and s.func.attr in ("append", "insert", "add", "setdefault") and s.args and isinstance(s.args[-1], ast.Name):
                     v = s.args[-1].id
-                if v is None or v in bound_in_loop:
+                cands = [v] if v is not None else []
+                if isinstance(s, ast.Call) and (dotted(s.func) or "")[:1].isupper() and "." not in (dotted(s.func) or "."):
+                    # a constructor call building an element of the output: Ctor(field=v, ...)
+                    cands += [a.id for a in s.args if isinstance(a, ast.Name)] + [k.value.id for k in s.keywords if isinstance(k.value, ast.Name)]
+                for v in cands:
+                  if v in bound_in_loop:
                     continue
-                defs = [a.value for a in ast.walk(fn) if isinstance(a, ast.Assign) and any(isinstance(t, ast.Name) and t.id == v for t in a.targets)]
-                if defs and all(_mutable_expr(d) for d in defs):
+                  defs = [a.value for a in ast.walk(fn) if isinstance(a, ast.Assign) and any(isinstance(t, ast.Name) and t.id == v for t in a.targets)]
+                  if defs and all(_mutable_expr(d) or _returns_fresh_mutable(repo, m, d) for d in defs):
                     out.append((fn, s, "the one object `%s` (= %s) is stored on every iteration of the loop at line %d: the containers share it" % (v, short(defs[0], 40), loop.lineno)))
+    # one report per (function, stored name)
+    seen, uniq = set(), []
+    for fn, s, why in out:
+        k = (fn.name, why.split("`")[1])
+        if k not in seen:
+            seen.add(k)
+            uniq.append((fn, s, why))
+    return uniq
+
+
+def _returns_fresh_mutable(repo, m, e):
+    """e is a call of a repository function every return of which builds a fresh mutable object"""
+    if repo is None or not (isinstance(e, ast.Call) and isinstance(e.func, ast.Name)):
+        return False
+    sym = repo.resolve(m.name, e.func.id)
+    if sym is None or getattr(sym, "kind", None) != "func" or sym.node is None:
+        return False
+    rets = [r.value for r in ast.walk(sym.node) if isinstance(r, ast.Return)]
+    return bool(rets) and all(r is not None and _mutable_expr(r) for r in rets)
+
+
+def split_unpacking(m):
+    """(function, node, reason): `a, b = text.split(sep, n)` -- the number of pieces depends on the text, so the unpacking
+    raises ValueError when the separator occurs fewer (or more) times than assumed; str.partition always returns three."""
+    out = []
+    for fn in [f for f in ast.walk(m.tree) if isinstance(f, (ast.FunctionDef, ast.AsyncFunctionDef))]:
+        for n in ast.walk(fn):
+            if isinstance(n, ast.Assign) and isinstance(n.targets[0], (ast.Tuple, ast.List)) and not any(isinstance(e, ast.Starred) for e in n.targets[0].elts) and isinstance(n.value, ast.Call) and isinstance(n.value.func, ast.Attribute) and n.value.func.attr in ("split", "rsplit", "splitlines"):
+                out.append((fn, n, "`%s` unpacks the result of .%s() into %d names: ValueError when the text has a different number of pieces (use .partition())" % (short(n, 60), n.value.func.attr, len(n.targets[0].elts))))
     return out
 
 
@@ -318,6 +353,10 @@ def share(units):
     for u in units:
         fresh = dict(a=1)
         u["other"] = fresh
+def cut(text):
+    head, tail = text.split("|", 1)
+    first, _, rest = text.partition("|")
+    return head, tail, first, rest
 def leak(rows):
     best = 0
     for r in rows:
@@ -366,7 +405,7 @@ def selfcheck():
                 return s
             return None
 
-    if len(swapped_arguments(R(), m)) != 1 or len(stale_lower_bound_guards(m)) != 1 or len(truthiness_presence(m)) != 2 or len(optional_attr_truthiness(m)) != 1 or (len(dropped_forwarding(R(), m)[0]), dropped_forwarding(R(), m)[1]) != (1, 1) or len(shared_object_in_loop(m)) != 1 or (len(length_differences(m)[0]), length_differences(m)[1]) != (1, 1) or len(last_iteration_leaks(m)) != 1:
+    if len(swapped_arguments(R(), m)) != 1 or len(stale_lower_bound_guards(m)) != 1 or len(truthiness_presence(m)) != 2 or len(optional_attr_truthiness(m)) != 1 or (len(dropped_forwarding(R(), m)[0]), dropped_forwarding(R(), m)[1]) != (1, 1) or len(shared_object_in_loop(m)) != 1 or (len(length_differences(m)[0]), length_differences(m)[1]) != (1, 1) or len(last_iteration_leaks(m)) != 1 or len(split_unpacking(m)) != 1:
         raise AnalysisError("bug-pattern rules no longer recognise their positive fixture")
 
 
@@ -379,6 +418,6 @@ def rule(repo, res, rid, modules):
         st = stale_lower_bound_guards(m)
         tp = [(fn, n, why) for fn, n, why in truthiness_presence(m) if (name, fn.name) not in TRUTHINESS_SANCTIONED] + optional_attr_truthiness(m)
         df, _fw = dropped_forwarding(repo, m)
-        df = df + shared_object_in_loop(m) + length_differences(m)[0] + last_iteration_leaks(m)
+        df = df + shared_object_in_loop(m, repo) + length_differences(m)[0] + last_iteration_leaks(m) + split_unpacking(m)
         bad = ["%s in %s (line %d)" % (why, fn.name, n.lineno) for fn, n, why in sw + df] + ["%s in %s" % (why, fn.name) for fn, n, why in st] + ["%s in %s (line %d)" % (why, fn.name, n.lineno) for fn, n, why in tp]
-        res.check(not bad, rid, "bug-patterns:%s" % name, m.rel, "; ".join(bad), by="no swapped same-named arguments, no lower-bound guard followed by a decrement, no presence-by-truthiness of a dictionary entry, every same-named defaulted parameter passed on, no loop storing one fresh mutable object into many containers, every `x - y` stored into a length field dominated by `if x < y: raise`, no name bound only inside a loop read after it")
+        res.check(not bad, rid, "bug-patterns:%s" % name, m.rel, "; ".join(bad), by="no swapped same-named arguments, no lower-bound guard followed by a decrement, no presence-by-truthiness of a dictionary entry, every same-named defaulted parameter passed on, no loop storing one fresh mutable object into many containers, every `x - y` stored into a length field dominated by `if x < y: raise`, no name bound only inside a loop read after it, no fixed-arity unpacking of a str.split()")
